@@ -55,6 +55,7 @@ structure RunRel (Sim : σ₁ → σ₂ → Stack α₁ π₁ α₂ π₂ → Pr
   log : r₁.log = r₂.log
   bad₁ : r₁.bad = false
   bad₂ : r₂.bad = false
+  oof : r₂.oof = false → r₁.oof = false
 
 theorem exec_zero {σ α π : Type} (M : Machine σ α π) (P : Prog) (r : Run σ) (t : Task α π) :
     exec M P 0 r t = { r with oof := true } := by
@@ -94,10 +95,10 @@ variable {M₁ : Machine σ₁ α₁ π₁} {M₂ : Machine σ₂ α₂ π₂}
 
 theorem prim_sim (ok : SimOK M₁ M₂ Sim) {K : Stack α₁ π₁ α₂ π₂} {r₁ : Run σ₁} {r₂ : Run σ₂}
     (a : Action) (h : RunRel Sim K r₁ r₂) : RunRel Sim K (r₁.prim M₁ a) (r₂.prim M₂ a) := by
-  obtain ⟨hs, ⟨hv1, hv2, hv3, hv4, hv5⟩, hi, hl, hb1, hb2⟩ := h
+  obtain ⟨hs, ⟨hv1, hv2, hv3, hv4, hv5⟩, hi, hl, hb1, hb2, ho⟩ := h
   cases r₁
   cases r₂
-  simp only at hs hv1 hv2 hv3 hv4 hv5 hi hl hb1 hb2
+  simp only at hs hv1 hv2 hv3 hv4 hv5 hi hl hb1 hb2 ho
   subst hv1 hv2 hv3 hv4 hv5 hi hl hb1 hb2
   cases a with
   | connect e g l x =>
@@ -105,34 +106,34 @@ theorem prim_sim (ok : SimOK M₁ M₂ Sim) {K : Stack α₁ π₁ α₂ π₂} 
     split
     · rename_i c
       simp only [Bool.and_eq_true] at c
-      exact ⟨ok.connect _ g _ x hs c.1 c.2, ⟨rfl, rfl, rfl, rfl, rfl⟩, rfl, rfl, rfl, rfl⟩
-    · exact ⟨hs, ⟨rfl, rfl, rfl, rfl, rfl⟩, rfl, rfl, rfl, rfl⟩
+      exact ⟨ok.connect _ g _ x hs c.1 c.2, ⟨rfl, rfl, rfl, rfl, rfl⟩, rfl, rfl, rfl, rfl, ho⟩
+    · exact ⟨hs, ⟨rfl, rfl, rfl, rfl, rfl⟩, rfl, rfl, rfl, rfl, ho⟩
   | disconnect e g l x =>
     simp only [Run.prim, ← ok.aliveE _ hs, ← ok.aliveL _ hs]
     split
     · rename_i c
       simp only [Bool.and_eq_true] at c
-      exact ⟨ok.disconnect _ g _ x hs c.1 c.2, ⟨rfl, rfl, rfl, rfl, rfl⟩, rfl, rfl, rfl, rfl⟩
-    · exact ⟨hs, ⟨rfl, rfl, rfl, rfl, rfl⟩, rfl, rfl, rfl, rfl⟩
+      exact ⟨ok.disconnect _ g _ x hs c.1 c.2, ⟨rfl, rfl, rfl, rfl, rfl⟩, rfl, rfl, rfl, rfl, ho⟩
+    · exact ⟨hs, ⟨rfl, rfl, rfl, rfl, rfl⟩, rfl, rfl, rfl, rfl, ho⟩
   | delL l =>
     simp only [Run.prim, ← ok.aliveL _ hs]
     split
     · rename_i c
-      exact ⟨ok.delL _ hs c, ⟨rfl, rfl, rfl, rfl, rfl⟩, rfl, rfl, rfl, rfl⟩
-    · exact ⟨hs, ⟨rfl, rfl, rfl, rfl, rfl⟩, rfl, rfl, rfl, rfl⟩
+      exact ⟨ok.delL _ hs c, ⟨rfl, rfl, rfl, rfl, rfl⟩, rfl, rfl, rfl, rfl, ho⟩
+    · exact ⟨hs, ⟨rfl, rfl, rfl, rfl, rfl⟩, rfl, rfl, rfl, rfl, ho⟩
   | delE e =>
     simp only [Run.prim, ← ok.aliveE _ hs]
     split
     · rename_i c
-      exact ⟨ok.delE _ hs c, ⟨rfl, rfl, rfl, rfl, rfl⟩, rfl, rfl, rfl, rfl⟩
-    · exact ⟨hs, ⟨rfl, rfl, rfl, rfl, rfl⟩, rfl, rfl, rfl, rfl⟩
+      exact ⟨ok.delE _ hs c, ⟨rfl, rfl, rfl, rfl, rfl⟩, rfl, rfl, rfl, rfl, ho⟩
+    · exact ⟨hs, ⟨rfl, rfl, rfl, rfl, rfl⟩, rfl, rfl, rfl, rfl, ho⟩
   | newL l =>
     simp only [Run.prim, ← ok.aliveL _ hs]
-    split <;> exact ⟨hs, ⟨rfl, rfl, rfl, rfl, rfl⟩, rfl, rfl, rfl, rfl⟩
+    split <;> exact ⟨hs, ⟨rfl, rfl, rfl, rfl, rfl⟩, rfl, rfl, rfl, rfl, ho⟩
   | newE e =>
     simp only [Run.prim, ← ok.aliveE _ hs]
-    split <;> exact ⟨hs, ⟨rfl, rfl, rfl, rfl, rfl⟩, rfl, rfl, rfl, rfl⟩
-  | emit e g => exact ⟨hs, ⟨rfl, rfl, rfl, rfl, rfl⟩, rfl, rfl, rfl, rfl⟩
+    split <;> exact ⟨hs, ⟨rfl, rfl, rfl, rfl, rfl⟩, rfl, rfl, rfl, rfl, ho⟩
+  | emit e g => exact ⟨hs, ⟨rfl, rfl, rfl, rfl, rfl⟩, rfl, rfl, rfl, rfl, ho⟩
 
 /-- **Simulation lifts to programs**, for every fuel: scripts keep the relation with the same
     stack; a loop keeps it with an advanced innermost position. -/
@@ -147,10 +148,10 @@ theorem exec_sim (ok : SimOK M₁ M₂ Sim) (P : Prog) (n : Nat) :
     constructor
     · intro K as r₁ r₂ h
       rw [exec_zero, exec_zero]
-      exact ⟨h.sim, h.vars, h.inv, h.log, h.bad₁, h.bad₂⟩
+      exact ⟨h.sim, h.vars, h.inv, h.log, h.bad₁, h.bad₂, fun hh => by simp at hh⟩
     · intro K a p b q r₁ r₂ h
       rw [exec_zero, exec_zero]
-      exact ⟨p, q, h.sim, h.vars, h.inv, h.log, h.bad₁, h.bad₂⟩
+      exact ⟨p, q, h.sim, h.vars, h.inv, h.log, h.bad₁, h.bad₂, fun hh => by simp at hh⟩
   | succ n ih =>
     obtain ⟨ihA, ihL⟩ := ih
     constructor
@@ -162,10 +163,10 @@ theorem exec_sim (ok : SimOK M₁ M₂ Sim) (P : Prog) (n : Nat) :
         · obtain ⟨e, g, rfl⟩ := hem
           rw [exec_acts_emit, exec_acts_emit]
           apply ihA K as _ _
-          obtain ⟨hs, ⟨hv1, hv2, hv3, hv4, hv5⟩, hi, hl, hb1, hb2⟩ := h
+          obtain ⟨hs, ⟨hv1, hv2, hv3, hv4, hv5⟩, hi, hl, hb1, hb2, ho⟩ := h
           cases r₁
           cases r₂
-          simp only at hs hv1 hv2 hv3 hv4 hv5 hi hl hb1 hb2
+          simp only at hs hv1 hv2 hv3 hv4 hv5 hi hl hb1 hb2 ho
           subst hv1 hv2 hv3 hv4 hv5 hi hl hb1 hb2
           simp only [← ok.aliveE _ hs]
           split
@@ -178,7 +179,7 @@ theorem exec_sim (ok : SimOK M₁ M₂ Sim) (P : Prog) (n : Nat) :
             cases o1 with
             | none =>
               cases o2 with
-              | none => exact ⟨hb, ⟨rfl, rfl, rfl, rfl, rfl⟩, rfl, rfl, rfl, rfl⟩
+              | none => exact ⟨hb, ⟨rfl, rfl, rfl, rfl, rfl⟩, rfl, rfl, rfl, rfl, ho⟩
               | some bq =>
                 obtain ⟨b, q⟩ := bq
                 obtain ⟨hd, hs'⟩ := hb
@@ -186,10 +187,10 @@ theorem exec_sim (ok : SimOK M₁ M₂ Sim) (P : Prog) (n : Nat) :
                 cases n with
                 | zero =>
                   simp only [exec_zero]
-                  exact ⟨hs', ⟨rfl, rfl, rfl, rfl, rfl⟩, rfl, rfl, rfl, rfl⟩
+                  exact ⟨hs', ⟨rfl, rfl, rfl, rfl, rfl⟩, rfl, rfl, rfl, rfl, fun hh => by simp at hh⟩
                 | succ n =>
                   simp only [exec_loop, hd]
-                  exact ⟨hs', ⟨rfl, rfl, rfl, rfl, rfl⟩, rfl, rfl, rfl, rfl⟩
+                  exact ⟨hs', ⟨rfl, rfl, rfl, rfl, rfl⟩, rfl, rfl, rfl, rfl, ho⟩
             | some ap =>
               cases o2 with
               | none => exact absurd hb (by simp [BeginRel])
@@ -198,11 +199,11 @@ theorem exec_sim (ok : SimOK M₁ M₂ Sim) (P : Prog) (n : Nat) :
                 obtain ⟨b, q⟩ := bq
                 simp only
                 obtain ⟨p', q', hr⟩ := ihL K a p b q _ _
-                  (⟨hb, ⟨rfl, rfl, rfl, rfl, rfl⟩, rfl, rfl, rfl, rfl⟩ : RunRel Sim (((a, p), (b, q)) :: K)
+                  (⟨hb, ⟨rfl, rfl, rfl, rfl, rfl⟩, rfl, rfl, rfl, rfl, ho⟩ : RunRel Sim (((a, p), (b, q)) :: K)
                     { m := m1', emId := emId, lId := _, lIdx := _, nextE := _, nextL := _, inv := _, log := _, bad := false, oof := _ }
                     { m := s1, emId := emId, lId := _, lIdx := _, nextE := _, nextL := _, inv := _, log := _, bad := false, oof := _ })
-                exact ⟨ok.finish hr.sim, hr.vars, hr.inv, hr.log, hr.bad₁, hr.bad₂⟩
-          · exact ⟨hs, ⟨rfl, rfl, rfl, rfl, rfl⟩, rfl, rfl, rfl, rfl⟩
+                exact ⟨ok.finish hr.sim, hr.vars, hr.inv, hr.log, hr.bad₁, hr.bad₂, hr.oof⟩
+          · exact ⟨hs, ⟨rfl, rfl, rfl, rfl, rfl⟩, rfl, rfl, rfl, rfl, ho⟩
         · have hne : ∀ e g, a ≠ .emit e g := fun e g he => hem ⟨e, g, he⟩
           rw [exec_acts_prim _ _ _ _ _ _ hne, exec_acts_prim _ _ _ _ _ _ hne]
           exact ihA K as _ _ (prim_sim ok a h)
@@ -227,7 +228,7 @@ theorem exec_sim (ok : SimOK M₁ M₂ Sim) (P : Prog) (n : Nat) :
           rw [← ok.aliveL l h.sim, hal]
           simp only [if_true]
           have hen : RunRel Sim (((a, p'), (b, q')) :: K) (r₁.enter (r₁.lIdx l) x) (r₂.enter (r₁.lIdx l) x) :=
-            ⟨hs, h.vars, by simp only [Run.enter, h.inv], by simp only [Run.enter, h.log], h.bad₁, h.bad₂⟩
+            ⟨hs, h.vars, by simp only [Run.enter, h.inv], by simp only [Run.enter, h.log], h.bad₁, h.bad₂, h.oof⟩
           have hsc := ihA _ (P.script (r₁.lIdx l) x (r₁.inv (r₁.lIdx l) x)) _ _ hen
           rw [← h.inv, ← h.vars.2.2.1]
           exact ihL K a p' b q' _ _ hsc
